@@ -128,6 +128,8 @@ pub fn worker_main(args: &[String]) -> i32 {
             }
         };
         let mut vios = Vec::new();
+        // minimisation of all new keys of one run shares one budget, well below the driver's watchdog limit
+        let shrink_deadline = crate::clock::real_monotonic_s() + 12.0;
         for v in rep.violations.iter() {
             let first = seen.insert(v.key.clone());
             let mut min = None;
@@ -139,7 +141,8 @@ pub fn worker_main(args: &[String]) -> i32 {
                     c.events.truncate(v.event + 1);
                     if check.execute(&c, &env).violations.iter().any(|x| x.key == v.key) { min = Some(c); } else { min = Some(trace.clone()); }
                 } else {
-                    let m = shrink(check.as_ref(), &trace, &env, &v.key, v.event, 8.0);
+                    let left = (shrink_deadline - crate::clock::real_monotonic_s()).min(8.0);
+                    let m = if left > 0.5 { shrink(check.as_ref(), &trace, &env, &v.key, v.event, left) } else { let mut c = trace.clone(); c.events.truncate(v.event + 1); if check.execute(&c, &env).violations.iter().any(|x| x.key == v.key) { c } else { trace.clone() } };
                     min = Some(m);
                 }
                 if let Some(m) = &min {
